@@ -18,7 +18,7 @@ from props import _subtotals as st
 from props import c05
 
 PROPERTY = "C05"
-LEAN_MODULE = "CrCube.Props.C05_Pipeline"
+LEAN_MODULE = ["CrCube.Props.C05_Pipeline", "CrCube.Props.C05_PipelineMeasures"]
 THEOREMS = [
     "CrCube.C05.slice_blocks_depend_on_insertions_only",
     "CrCube.C05.slice_blocks_independent",
@@ -59,6 +59,30 @@ THEOREMS = [
     "CrCube.C05.resolve_strip",
     "CrCube.C05.resolve_wf",
     "CrCube.C05.sliceWF_of_resolve",
+    # phase 2 (Props/C05_PipelineMeasures.lean): every measure of the keyword tables, composed
+    "CrCube.C05.slice_mat_cell",
+    "CrCube.C05.slice_variance_is_C11",
+    "CrCube.C05.varCellAt_prims",
+    "CrCube.C05.sideOf_def",
+    "CrCube.C05.slice_omat_cell",
+    "CrCube.C05.slice_stats_are_C11",
+    "CrCube.C05.slice_zscore_is_C12",
+    "CrCube.C05.slice_zscore_block_uniform",
+    "CrCube.C05.slice_sort_reads_surrogate",
+    "CrCube.C05.sqrtKey_monotone",
+    "CrCube.C05.sqrtKey_nan_iff",
+    "CrCube.C05.slice_colindex_is_C16",
+    "CrCube.C05.slice_colindex_respondents",
+    "CrCube.C05.slice_numeric_are_C04_C15",
+    "CrCube.C05.popDir_eq_popMode",
+    "CrCube.C05.slice_population_is_C17",
+    "CrCube.C05.slice_scale_is_C14",
+    "CrCube.C05.slice_omat_reindexed",
+    "CrCube.C05.slice_omat_extent",
+    "CrCube.C05.slice_scale_reindexed",
+    "CrCube.C05.strand_stats_are_C11",
+    "CrCube.C05.strand_ovec_reindexed",
+    "CrCube.C05.strand_scale_is_C14",
 ]
 RULE = ("pipeline: 1-D / 2-D / 3-D designs over cat / cat_date / text / binned / datetime / mr (derived items, missing "
         "items, missing categories anywhere) and single CA variables x random surveys (weighted or not, zero-weight "
@@ -86,18 +110,34 @@ ASSUMPTIONS = [
 
 MEASURE_OK = ["col_base_unweighted", "col_base_weighted", "col_percent", "row_base_unweighted", "row_base_weighted",
               "row_percent", "table_percent", "table_base_unweighted", "table_base_weighted", "count_unweighted",
-              "valid_count_unweighted", "count_weighted", "valid_count_weighted"]
-MARGINAL_OK = ["unweighted_base", "weighted_base"]
-STRIPE_OK = ["base_unweighted", "base_weighted", "count_unweighted", "count_weighted", "percent"]
+              "valid_count_unweighted", "count_weighted", "valid_count_weighted",
+              # phase 2: every keyword of the helper's table
+              "col_index", "col_percent_moe", "col_share_sum", "col_std_dev", "col_std_err", "mean", "population",
+              "population_moe", "p_value", "row_percent_moe", "row_share_sum", "row_std_dev", "row_std_err", "stddev",
+              "sum", "table_percent_moe", "table_std_dev", "table_std_err", "total_share_sum", "z_score"]
+MARGINAL_OK = ["unweighted_base", "weighted_base", "table_proportion", "scale_mean", "scale_mean_stddev",
+               "scale_mean_stderr", "scale_median"]
+STRIPE_OK = ["base_unweighted", "base_weighted", "count_unweighted", "count_weighted", "percent", "mean", "percent_moe",
+             "percent_stddev", "percent_stderr", "population", "population_moe", "share_sum", "sum"]
 
 MATS = ["counts", "unweighted_counts", "row_weighted_bases", "row_unweighted_bases", "column_weighted_bases",
         "column_unweighted_bases", "table_weighted_bases", "table_unweighted_bases", "row_proportions",
-        "column_proportions", "table_proportions"]
+        "column_proportions", "table_proportions",
+        "row_proportion_variances", "column_proportion_variances", "table_proportion_variances", "column_index",
+        "row_std_dev", "column_std_dev", "table_std_dev", "row_std_err", "column_std_err", "table_std_err",
+        "row_proportions_moe", "column_proportions_moe", "table_proportions_moe", "zscores", "pvals",
+        "population_std_err", "population_proportions", "population_counts", "population_counts_moe"]
+NUMERIC_MATS = {"sums": "sum", "means": "mean", "stddev": "stddev", "medians": "median", "row_share_sum": "sum",
+                "column_share_sum": "sum", "total_share_sum": "sum"}
 MARGS = ["rows_margin", "columns_margin", "rows_base", "columns_base", "table_margin", "table_base"]
 SPEC_MATS = ["counts", "unweighted_counts", "row_weighted_bases", "row_unweighted_bases", "column_weighted_bases",
              "column_unweighted_bases", "table_weighted_bases", "table_unweighted_bases"]
-STRAND_VECS = ["counts", "unweighted_counts", "weighted_bases", "unweighted_bases", "table_proportions"]
+STRAND_VECS = ["counts", "unweighted_counts", "weighted_bases", "unweighted_bases", "table_proportions",
+               "table_proportion_stddevs", "table_proportion_stderrs", "table_proportion_moes",
+               "population_proportion_stderrs", "population_proportions", "population_counts", "population_counts_moe"]
+STRAND_NUMERIC = {"sums": "sum", "means": "mean", "stddev": "stddev", "medians": "median", "share_sum": "sum"}
 STRAND_SPEC = ["counts", "unweighted_counts", "weighted_bases", "unweighted_bases"]
+MEASURE_FIELD = {"sum": "sums", "mean": "means", "stddev": "stddevs", "median": "medians"}
 
 
 # ---------------------------------------------------------------------------------------------
@@ -105,21 +145,14 @@ STRAND_SPEC = ["counts", "unweighted_counts", "weighted_bases", "unweighted_base
 
 
 def _restrict_order(rng, o, strand):
-    """keep the c05 grammar, replace sort keys the pipeline does not compute"""
+    """the c05 grammar; a strand's `univariate_measure` draws from the stripe helper's own keyword table"""
     if not o:
         return o
     t = o.get("type")
-    if t in ("opposing_element", "opposing_insertion"):
-        if o.get("measure") not in MEASURE_OK and o.get("measure") != "bogus_measure":
-            o["measure"] = rng.choice(MEASURE_OK + ["bogus_measure"])
-    elif t == "marginal":
-        if o.get("marginal") not in MARGINAL_OK:
-            o["marginal"] = rng.choice(MARGINAL_OK + MARGINAL_OK + ["bogus_marginal"])
-    elif t == "univariate_measure":
-        if strand:
-            o["measure"] = rng.choice(STRIPE_OK + STRIPE_OK + ["bogus_measure"])
-        else:
-            o["measure"] = rng.choice(MEASURE_OK)
+    if t == "univariate_measure" and strand:
+        o["measure"] = rng.choice(STRIPE_OK + STRIPE_OK + ["bogus_measure"])
+    elif t == "marginal" and rng.random() < 0.1:
+        o["marginal"] = "bogus_marginal"
     return o
 
 
@@ -307,7 +340,7 @@ def gen_prune_case(rng):
     return case
 
 
-def gen_case(rng):
+def _gen_case0(rng):
     r = rng.random()
     if r < 0.30:
         return gen_sort_case(rng)
@@ -362,6 +395,34 @@ def gen_case(rng):
     if rng.random() < 0.1:
         case["transforms"].pop(rng.choice(sorted(case["transforms"])))
     return case
+
+
+def gen_case(rng):
+    case = _gen_case0(rng)
+    vars_, survey = sc.load(case)
+    # numeric measures on some cases (a sort by mean / sum / stddev / share-of-sum falls back without them)
+    if rng.random() < 0.45:
+        tot = 1
+        for x in gen.raw_shape(vars_):
+            tot *= x
+        ms = {}
+        for name in rng.sample(["mean", "sum", "stddev", "median"], rng.randint(1, 3)):
+            ms[name] = [gen.frac_str(Fraction(rng.randint(0, 40), rng.choice([1, 2, 4]))) if rng.random() < 0.9 else None
+                        for _ in range(tot)]
+        case["measures"] = ms
+    case["population"] = rng.choice([0, 1000, 1000, 250])
+    # the column index is not evidenced for an array dimension with an item flagged missing (the library states an
+    # MR_SUBVAR element is never missing): no col_index sort key there, and column_index is not compared
+    if _missing_array_item(vars_):
+        for d in case["transforms"].values():
+            o = (d or {}).get("order") or {}
+            if o.get("measure") == "col_index":
+                o["measure"] = "col_percent"
+    return case
+
+
+def _missing_array_item(vars_):
+    return any(v.is_array and len(v.valid_item_pos) != len(v.items) for v in vars_[-2:])
 
 
 def _ins_ids(d):
@@ -477,6 +538,51 @@ def _lean_order(o):
     return out
 
 
+def _numvals(v, role):
+    if role != "cat" or v.kind not in ("cat", "cat_date", "logical", "ca"):
+        return ["nan"] * len(_keys(v, role))
+    return ["nan" if c.get("numeric_value") is None else gen.frac_str(Fraction(c["numeric_value"]))
+            for c in v.cats if not c["missing"]]
+
+
+def _valid_item_flat(vars_, flat):
+    """a raw flat measure array restricted to the array items not flagged missing (the layout the Lean design has)"""
+    import itertools
+    shape = gen.raw_shape(vars_)
+    keep = []
+    for v in vars_:
+        if v.is_array:
+            keep.append(v.valid_item_pos)
+            keep.append(list(range(len(v.cats))))
+        else:
+            keep.append(list(range(len(v.cats))))
+    strides = []
+    acc = 1
+    for n in reversed(shape):
+        strides.append(acc)
+        acc *= n
+    strides = list(reversed(strides))
+    return [flat[sum(i * st for i, st in zip(ix, strides))] for ix in itertools.product(*keep)]
+
+
+def _measure_ops(case, vars_):
+    out = {}
+    for name, data in (case.get("measures") or {}).items():
+        out[MEASURE_FIELD[name]] = ["nan" if x is None else x for x in _valid_item_flat(vars_, data)]
+    out["population"] = case.get("population", 0)
+    return out
+
+
+def _make_cube(case, tr):
+    from cr.cube.cube import Cube
+    vars_, survey = sc.load(case)
+    extra = {}
+    for name, data in (case.get("measures") or {}).items():
+        extra[name] = [{"?": -1} if x is None else gen.num(Fraction(x)) for x in data]
+    resp = gen.cube_response(vars_, survey, case["weighted"], extra_measures=extra or None)
+    return Cube(resp, transforms=copy.deepcopy(tr), population=case.get("population", 0))
+
+
 def lean_dim(v, role, d):
     d = d or {}
     keys = _keys(v, role)
@@ -490,7 +596,7 @@ def lean_dim(v, role, d):
         kind = "mr" if role == "mr" else "arr"
     view = v.view_insertions if (role == "cat" and v.kind != "ca") else None
     out = {"kind": kind, "catdate": role == "cat" and v.kind == "cat_date", "elems": elems,
-           "labels": _labels(v, role, d),
+           "labels": _labels(v, role, d), "numvals": _numvals(v, role),
            "view": [_lean_ins(i) for i in (view or [])],
            "insertions": [_lean_ins(i) for i in d["insertions"]] if "insertions" in d else None,
            "hide": [_el_transform(d, k).get("hide") is True for k in keys],
@@ -503,17 +609,18 @@ def lean_ops(case):
     vars_, survey, lv, ls, wdata, udata = sc.lean_inputs(case)
     tr = case["transforms"]
     dims = _dims_of(vars_)
-    # the executable twins of the re-indexing theorems on every 5th case (a pure function of the case)
-    twins = len(case["survey"]) % 5 == 0
+    # the executable twins of the re-indexing theorems on every 12th case or so (a pure function of the case)
+    twins = len(case["survey"]) % 12 == 5
     if len(dims) == 1:
         (v, role), = dims
-        return [{"op": "pipe_strand", "vars": lv, "wdata": wdata, "udata": udata, "survey": ls, "twins": twins,
-                 "rows": lean_dim(v, role, tr.get("rows_dimension"))}]
+        return [dict({"op": "pipe_strand", "vars": lv, "wdata": wdata, "udata": udata, "survey": ls, "twins": twins,
+                      "rows": lean_dim(v, role, tr.get("rows_dimension"))}, **_measure_ops(case, vars_))]
     (rv, rrole), (cv, crole) = dims
     rows = lean_dim(rv, rrole, tr.get("rows_dimension"))
     cols = lean_dim(cv, crole, tr.get("columns_dimension"))
-    return [{"op": "pipe_slice", "vars": lv, "wdata": wdata, "udata": udata, "k": k, "survey": ls, "twins": twins,
-             "rows": rows, "cols": cols} for k in range(sc.nparts(vars_))]
+    mo = _measure_ops(case, vars_)
+    return [dict({"op": "pipe_slice", "vars": lv, "wdata": wdata, "udata": udata, "k": k, "survey": ls, "twins": twins,
+                  "rows": rows, "cols": cols}, **mo) for k in range(sc.nparts(vars_))]
 
 
 # ---------------------------------------------------------------------------------------------
@@ -524,13 +631,108 @@ def _strs(x):
     return [str(y) for y in x] if isinstance(x, list) else x
 
 
+def _lf(m):
+    """Lean value -> floats: common.model_to_float plus the Scale model's sqrt(a)/sqrt(b) term"""
+    import numpy as np
+    if isinstance(m, dict) and "sqrtdivsqrt" in m:
+        a, b = (common.model_to_float(x) for x in m["sqrtdivsqrt"])
+        with np.errstate(all="ignore"):
+            return float(np.sqrt(np.float64(a)) / np.sqrt(np.float64(b)))
+    if isinstance(m, list):
+        return [_lf(x) for x in m]
+    if isinstance(m, dict) and not (set(m) & {"sqrt", "divsqrt", "scale", "normtail2", "ttail2"}):
+        return {k: _lf(v) for k, v in m.items()}
+    return common.model_to_float(m)
+
+
+def _near(a, b):
+    import math
+    if a is None or b is None:
+        return a is b
+    if math.isnan(a) or math.isnan(b):
+        return math.isnan(a) and math.isnan(b)
+    if math.isinf(a) or math.isinf(b):
+        return a == b
+    return abs(a - b) <= 1e-9 * max(1.0, abs(a), abs(b))
+
+
+def _tie_perm(lib_order, lean_order, keys):
+    """orders computed from exact rationals and from floats may break (near-)ties differently: if the two orders list the
+    same vectors and at every position the two vectors have (near-)equal sort keys, return the map
+    lib position -> lean position, else None"""
+    if keys is None or sorted(lib_order) != sorted(lean_order):
+        return None
+    n = len(keys)
+    kf = common.model_to_float(keys)
+    for a, b in zip(lib_order, lean_order):
+        ka, kb = kf[a if a >= 0 else n + a], kf[b if b >= 0 else n + b]
+        if a != b and not _near(ka, kb):
+            return None
+    return [lean_order.index(x) for x in lib_order]
+
+
+ROW_VECS = ("row_label_idxs",)
+COL_VECS = ("column_label_idxs",)
+ROW_POS = ("inserted_row_idxs", "diff_row_idxs", "derived_row_idxs")
+COL_POS = ("inserted_column_idxs", "diff_column_idxs", "derived_column_idxs")
+
+
+def _remap(t, rp, cp, nr, nc):
+    """the Lean outputs re-indexed from the Lean display orders to the library's (a pure permutation of displayed
+    vectors with tied sort keys)"""
+    rp = rp if rp is not None else list(range(nr))
+    cp = cp if cp is not None else list(range(nc))
+
+    def mat(m):
+        return [[m[i][j] for j in cp] for i in rp]
+
+    def is_mat(m):
+        return isinstance(m, list) and len(m) == nr and all(isinstance(r, list) and len(r) == nc for r in m)
+
+    out = {}
+    for k, v in t.items():
+        if k == "row_order":
+            out[k] = [v[i] for i in rp]
+        elif k == "column_order":
+            out[k] = [v[j] for j in cp]
+        elif k in ROW_VECS:
+            out[k] = [v[i] for i in rp]
+        elif k in COL_VECS:
+            out[k] = [v[j] for j in cp]
+        elif k in ROW_POS:
+            out[k] = [p for p in range(nr) if rp[p] in v]
+        elif k in COL_POS:
+            out[k] = [p for p in range(nc) if cp[p] in v]
+        elif k in ("rows_scale", "columns_scale"):
+            perm = rp if k == "rows_scale" else cp
+            out[k] = None if v is None else {kk: (None if vv is None else [vv[i] for i in perm]) for kk, vv in v.items()}
+        elif k in ("rows_margin_proportion",):
+            out[k] = None if v is None else [v[i] for i in rp]
+        elif k in ("columns_margin_proportion",):
+            out[k] = None if v is None else [v[j] for j in cp]
+        elif is_mat(v):
+            out[k] = mat(v)
+        elif isinstance(v, list) and k in ("rows_margin", "rows_base") and len(v) == nr:
+            out[k] = [v[i] for i in rp]
+        elif isinstance(v, list) and k in ("columns_margin", "columns_base") and len(v) == nc:
+            out[k] = [v[j] for j in cp]
+        elif isinstance(v, list) and k in ("table_margin", "table_base"):
+            # 1-D along the non-array dimension: the caller knows which; lengths decide unless square
+            out[k] = v if (rp == list(range(nr)) and cp == list(range(nc))) else {"skip": True}
+        else:
+            out[k] = v
+    return out
+
+
 def _cmp(findings, kind, locus, impl, model, detail):
     if isinstance(impl, dict) and "raises" in impl and not (isinstance(model, dict) and "raises" in model):
         # an output that raises under transforms which the model (and the property) says only re-index
         findings.append({"kind": "spec", "locus": locus + ".raises",
                          "detail": "%s impl=%r model=%s" % (detail, impl, sc._short(model))})
         return False
-    return sc.compare(findings, kind, locus, impl, common.model_to_float(model), detail)
+    if isinstance(model, dict) and model.get("skip"):
+        return True
+    return sc.compare(findings, kind, locus, impl, _lf(model), detail)
 
 
 def _pick(seq, idxs):
@@ -577,7 +779,7 @@ def evaluate(case, louts, ctx):
         if o:
             ctx.count("pipe.order:%s" % o.get("type"))
     try:
-        cube = sc.make_cube(case, transforms=copy.deepcopy(tr))
+        cube = _make_cube(case, tr)
         nparts_impl = len(cube.partitions)
     except Exception as e:  # noqa
         return [{"kind": "model", "locus": "pipeline.cube-construction", "detail": "%s: %s" % (type(e).__name__, e)}], None
@@ -609,6 +811,15 @@ def evaluate(case, louts, ctx):
                 det, ro, co, t["row_order"], t["column_order"])})
             continue
         det = "k=%d row_order=%r column_order=%r" % (k, ro, co)
+        # the model sorts exact rationals, the library floats: (near-)ties may be broken differently
+        rp = cp = None
+        if ro != t["row_order"]:
+            rp = _tie_perm(ro, t["row_order"], lo.get("row_sort_keys"))
+        if co != t["column_order"]:
+            cp = _tie_perm(co, t["column_order"], lo.get("column_sort_keys"))
+        if rp is not None or cp is not None:
+            ctx.count("pipe.near_tie_reordered")
+            t = _remap(t, rp, cp, len(t["row_order"]), len(t["column_order"]))
         ok_r = _cmp(findings, "model", "pipeline.slice.row_order", ro, t["row_order"], det)
         ok_c = _cmp(findings, "model", "pipeline.slice.column_order", co, t["column_order"], det)
         # property level (slice_order_nodup / slice_order_subset): never twice, only vectors of the stripped order
@@ -623,9 +834,31 @@ def evaluate(case, louts, ctx):
                    "derived_row_idxs", "derived_column_idxs"):
             _cmp(findings, "model", "pipeline.slice.%s" % nm, common.call_impl(lambda: getattr(sl, nm)), t[nm], det)
         for nm in MATS:
+            if nm == "column_index" and _missing_array_item(vars_):
+                ctx.count("excluded:column_index.missing-array-item")
+                continue
             _cmp(findings, "model", "pipeline.slice.%s" % nm, common.call_impl(lambda: getattr(sl, nm)), t[nm], det)
         for nm in MARGS:
             _cmp(findings, "model", "pipeline.slice.%s" % nm, common.call_impl(lambda: getattr(sl, nm)), t[nm], det)
+        have = set((case.get("measures") or {}).keys())
+        for nm, need in NUMERIC_MATS.items():
+            got = common.call_impl(lambda: getattr(sl, nm))
+            if need in have:
+                _cmp(findings, "model", "pipeline.slice.%s" % nm, got, t[nm], det)
+            elif not (isinstance(got, dict) and got.get("raises") == "ValueError") or t[nm] is not None:
+                findings.append({"kind": "model", "locus": "pipeline.slice.%s.absent-measure" % nm,
+                                 "detail": "%s impl=%s model=%s" % (det, sc._short(got), sc._short(t[nm]))})
+        for axis in ("rows", "columns"):
+            sv = t["%s_scale" % axis]
+            for lib_nm, fld in (("scale_mean", "mean"), ("scale_median", "median"), ("scale_mean_stddev", "stddev"),
+                                ("scale_mean_stderr", "stderr")):
+                got = common.call_impl(lambda: getattr(sl, "%s_%s" % (axis, lib_nm)))
+                exp = None if sv is None else sv[fld]
+                _cmp(findings, "model", "pipeline.slice.%s_%s" % (axis, lib_nm), got, exp, det)
+            mp = t["%s_margin_proportion" % axis]
+            if mp is not None:      # 1-D case only (the 2-D fallback across an array dimension is known finding F13)
+                _cmp(findings, "model", "pipeline.slice.%s_margin_proportion" % axis,
+                     common.call_impl(lambda: getattr(sl, "%s_margin_proportion" % axis)), mp, det)
         try:
             rdim, cdim = sl._dimensions
         except Exception as e:  # noqa
@@ -718,6 +951,15 @@ def _eval_strand(case, cube, dim, op, lo, ctx, kinds, tr):
         findings.append({"kind": "model", "locus": "pipeline.strand.order-raises", "detail": "impl %r model %r" % (ro, t["row_order"])})
         return findings, None
     det = "row_order=%r" % (ro,)
+    if ro != t["row_order"]:
+        rp = _tie_perm(ro, t["row_order"], lo.get("row_sort_keys"))
+        if rp is not None:
+            ctx.count("pipe.near_tie_reordered")
+            n = len(ro)
+            t = {k2: ([v2[i] for i in rp] if (isinstance(v2, list) and len(v2) == n and not k2.endswith("_idxs")
+                                              and k2 != "shape")
+                      else ([p2 for p2 in range(n) if rp[p2] in v2] if k2.endswith("_row_idxs") else v2))
+                 for k2, v2 in t.items()}
     ok = _cmp(findings, "model", "pipeline.strand.row_order", ro, t["row_order"], det)
     if len(set(ro)) != len(ro):
         findings.append({"kind": "spec", "locus": "pipeline.strand.row_order.duplicate", "detail": det})
@@ -728,6 +970,16 @@ def _eval_strand(case, cube, dim, op, lo, ctx, kinds, tr):
     for nm in ("inserted_row_idxs", "diff_row_idxs", "derived_row_idxs"):
         _cmp(findings, "model", "pipeline.strand.%s" % nm, common.call_impl(lambda: getattr(st_, nm)), t[nm], det)
     for nm in STRAND_VECS:
+        _cmp(findings, "model", "pipeline.strand.%s" % nm, common.call_impl(lambda: getattr(st_, nm)), t[nm], det)
+    have = set((case.get("measures") or {}).keys())
+    for nm, need in STRAND_NUMERIC.items():
+        got = common.call_impl(lambda: getattr(st_, nm))
+        if need in have:
+            _cmp(findings, "model", "pipeline.strand.%s" % nm, got, t[nm], det)
+        elif not (isinstance(got, dict) and got.get("raises") == "ValueError") or t[nm] is not None:
+            findings.append({"kind": "model", "locus": "pipeline.strand.%s.absent-measure" % nm,
+                             "detail": "%s impl=%s model=%s" % (det, sc._short(got), sc._short(t[nm]))})
+    for nm in ("scale_mean", "scale_median", "scale_std_dev", "scale_std_err"):
         _cmp(findings, "model", "pipeline.strand.%s" % nm, common.call_impl(lambda: getattr(st_, nm)), t[nm], det)
     _cmp(findings, "model", "pipeline.strand.rows_base", common.call_impl(lambda: st_.rows_base), t["unweighted_counts"], det)
     _cmp(findings, "model", "pipeline.strand.rows_margin", common.call_impl(lambda: st_.rows_margin), t["counts"], det)
